@@ -62,6 +62,8 @@ structure Sock where
   holdRx : Bool := false
   /-- user's receive handler destroys the socket (against the rules) -/
   selfDestroyInRecv : Bool := false
+  /-- (environment) the next `send()` the driver issues on this socket fails (ECONNRESET/EPIPE) -/
+  failSend : Bool := false
   deriving Repr
 
 structure Drv where
@@ -109,6 +111,8 @@ inductive Op where
   | send (s : Nat)
   | step (d : Nat)
   | peerSend (s : Nat) | peerClose (s : Nat) | peerReset (s : Nat) | peerConnect (s : Nat)
+  /-- (environment) make the next driver-side `send()` of TCP socket `s` fail -/
+  | sendFail (s : Nat)
   | release (s : Nat)
   | destroySock (s : Nat)
   | destroyDriver (d : Nat)
@@ -209,9 +213,12 @@ def St.onWritable (s : St) (i : Nat) : St :=
   match k.sendQ with
   | [] => s
   | id :: rest =>
-    let v := if k.kind = .tcp ∧ k.peer ≠ .up then Fut.either else Fut.value
+    -- `DriverSend`: a failing send puts the exception into the promise; the element is popped all the same,
+    -- nobody else is told (no disconnect handler, no unregister)
+    let v := if k.kind = .tcp ∧ k.failSend then Fut.exn
+             else if k.kind = .tcp ∧ k.peer ≠ .up then Fut.either else Fut.value
     let s := s.resolve id v
-    let s := s.setSock i { k with sendQ := rest }
+    let s := s.setSock i { k with sendQ := rest, failSend := if k.kind = .tcp then false else k.failSend }
     if rest.isEmpty then s.setDrv k.drv { (s.drv k.drv) with pfds := setOut (s.drv k.drv).pfds i false } else s
 
 /-- `StepTodos` with a zero deadline: at most one due task -/
@@ -267,6 +274,7 @@ def exec (v : Variant) (s : St) (op : Op) : St :=
   | .peerConnect i => s.setSock i { (s.sock i) with rx := (s.sock i).rx + 1 }
   | .peerClose i => s.setSock i { (s.sock i) with peer := if (s.sock i).peer = .up then .closed else (s.sock i).peer }
   | .peerReset i => s.setSock i { (s.sock i) with peer := if (s.sock i).peer = .up then .reset else (s.sock i).peer }
+  | .sendFail i => s.setSock i { (s.sock i) with failSend := true }
   | .release i => s.setSock i { (s.sock i) with held := 0 }
   | .destroySock i =>
     if ¬ (s.sock i).alive then s.fail "socket destroyed twice / never created" else s.destroySockObj i
@@ -311,6 +319,7 @@ def legalOp (s : St) : Op → Bool
   -- (environment) a reset is only explored when nothing is in flight towards a live socket: what the kernel does
   -- with unread data on RST is not modelled
   | .peerReset i => (s.sock i).present && (s.sock i).kind == .tcp && (! (s.sock i).alive || (s.sock i).rx == 0)
+  | .sendFail i => (s.sock i).alive && (s.sock i).kind == .tcp
   | .release i => (s.sock i).present
   | .destroySock i => (s.sock i).alive && (s.sock i).held == 0    -- the internal pool outlives its buffers
   | .destroyDriver d => (s.drv d).alive
